@@ -28,6 +28,7 @@ type C16 struct {
 	Many    bool  // start from more than 100 pending batches on one chain (more than one page of a paginated walk)
 	PerChain bool // validator B has one orchestrator account on ethereum and another one on bsc
 	Heights bool  // external heights are observed (deposits claimed by all bonded validators), so batches carry real timeouts
+	Superseded bool // the stake shifts (a second signer set is published) and the newer set's execution is observed while the first one is still inside the signed window
 }
 
 func NewC16() *C16 {
@@ -58,6 +59,11 @@ func (c *C16) SeedPaths() [][]engine.Op {
 	}
 	if c.Many {
 		return [][]engine.Op{{engine.OpN("MkMany", "ethereum", 101)}}
+	}
+	if c.Superseded {
+		// signer set 1 confirmed by A and B; the stake shifts, set 2 is published and its execution on ethereum observed
+		return [][]engine.Op{{engine.OpN("Confirm", "ethereum", 0, 0, 0, 0), engine.OpN("Confirm", "ethereum", 1, 1, 0, 0), engine.OpN("Shift"), engine.OpN("Next"), engine.OpN("ObserveSet")},
+			{engine.OpN("Confirm", "ethereum", 0, 0, 0, 0), engine.OpN("Shift"), engine.OpN("Next")}}
 	}
 	if c.Heights {
 		// an external height is known, then a batch is built (it gets a timeout a few thousand blocks ahead)
@@ -93,6 +99,9 @@ func (c *C16) Genesis() hub.Genesis {
 	}
 	if c.PerChain {
 		g.Accounts = append(g.Accounts, c.orchOn(1, "bsc"))
+	}
+	if c.Superseded {
+		g.InitialHeight = 20000 // older than SignedSignerSetTxsWindow: pruning of signer sets is in operation
 	}
 	return g
 }
@@ -178,6 +187,9 @@ func (c *C16) Ops(s *HState) []engine.Op {
 	}
 	if c.Heights {
 		ops = append(ops, engine.OpN("Dep", "ethereum", 600), engine.OpN("Dep", "ethereum", 10_000_000))
+	}
+	if c.Superseded {
+		ops = append(ops, engine.OpN("Shift"), engine.OpN("ObserveSet"))
 	}
 	ops = append(ops, engine.OpN("Next"))
 	return ops
@@ -322,6 +334,29 @@ func (c *C16) Do(in *hub.Instance, gg Ghost, op engine.Op, st *engine.Step) {
 		st.Obs = fmt.Sprint(exists)
 	case "Confirm":
 		c.confirm(in, g, op, st)
+	case "Shift":
+		// a delegation doubles (or halves back) validator A's stake: more than 5% of the normalised power moves
+		p := int64(20)
+		if in.Staking.Vals[0].Power == 20 {
+			p = 10
+		}
+		in.ValSetPower(0, p)
+		st.Obs = fmt.Sprint("power ", p)
+	case "ObserveSet":
+		// the latest signer set was relayed to ethereum; every bonded validator reports its execution event
+		ch := mhubtypes.ChainID("ethereum")
+		l := in.Hub.GetLatestSignerSetTx(in.Ctx(), ch)
+		if l == nil {
+			return
+		}
+		n := in.Hub.GetLastObservedEventNonce(in.Ctx(), ch) + 1
+		ev := &mhubtypes.SignerSetTxExecutedEvent{EventNonce: n, SignerSetTxNonce: l.Nonce, ExternalHeight: 100 + n, Members: l.Signers, TxHash: fmt.Sprintf("0xc16ss%d", n)}
+		for i := range c.Vals {
+			if i < len(in.Staking.Vals) && in.Staking.Vals[i].Bonded {
+				in.DeliverMsg(hub.EventMsg(c.orchOn(i, "ethereum"), "ethereum", ev))
+			}
+		}
+		st.Obs = fmt.Sprint("observe set ", l.Nonce)
 	case "JailB":
 		if in.Staking.Vals[1].Bonded && !in.Staking.Vals[1].Jailed {
 			in.ValJail(1)
@@ -660,6 +695,9 @@ func init() {
 		rot.Chains = []string{"ethereum"}
 		pc := NewC16()
 		pc.PerChain = true
+		sup := NewC16()
+		sup.Superseded = true
+		sup.Chains = []string{"ethereum"}
 		kl := NewC16()
 		kl.Keyless = true
 		kl.Chains = []string{"ethereum"}
@@ -669,6 +707,7 @@ func init() {
 				{Name: "validator B with one orchestrator account per chain", Spec: pc, Cfg: cfg},
 				{Name: "validator A registers new keys after confirming", Spec: rot, Cfg: cfg},
 				{Name: "observed external heights, a batch with a real timeout", Spec: hts, Cfg: cfg},
+				{Name: "a second signer set is published and observed while the first, confirmed one is still inside the signed window", Spec: sup, Cfg: cfg},
 				{Name: "101 pending batches of one token", Spec: mny, Cfg: cfgMany},
 				{Name: "operator addresses of 32 bytes (A) and 0xff..ff (B)", Spec: odd, Cfg: cfg}}, []string{
 			"validators A, B bonded, C unbonded, D unbonding (all with registered keys); batches: up to three of one token plus one of a second token on ethereum; signers: validator account, orchestrator, stranger; tx refs: existing/unknown signer set, existing/unknown batch, contract call; claimed external signer own/other's; a confirmation built for the other chain's batch; duplicates by repetition",
